@@ -1211,8 +1211,9 @@ def generated_time_checks(idx: Index, res: Result, rule: str) -> None:
               "integration step is taken (S'=1 gives S(0.4)=0.5)" % arg, key="%s/jinja:simulation_model.memoize/key=%s" % (rule, arg))
     # the normalisation must be relative to the model's own grid (start + k*dt): rounding to a fixed number of decimals is right
     # for decimal dt only - with dt=1/3 the rounded time minus dt misses the previous grid point
+    from ..util import _written_out as _wo
     for n in normalised:
-        txt = src(n.value)
+        txt = src(_wo(mm, n.value))             # locals that hold self.dt / self.starttime (dt = self.dt, (dt := self.dt)) written out
         grid_rel = "self.dt" in txt and "self.starttime" in txt
         res.check(rule, "generated memoize() normalises relative to its own grid (start, dt)", grid_rel, "%s (template)" % JINJA, "jinja:simulation_model.memoize",
                   norm_stmt(n)[:120], "the generated memoize() normalises the time with '%s', which does not refer to self.starttime and self.dt: "
